@@ -386,6 +386,18 @@ pub fn run(run: &Run) {
         names.extend(next.iter().cloned());
         cur = next;
     }
+    // names built from the vocabularies: every keyword of every format (atom prefixes, connecters, copulas,
+    // brackets, punctuation, stamp and number brackets) as a whole name, in front of, behind and around a
+    // plain name, and doubled - a rename stores whatever it is given, verbatim
+    for f in crate::fmts::all() {
+        for k in crate::strings::keywords(&f) {
+            for n in [k.clone(), format!("{k}go"), format!("go{k}"), format!("{k}{k}"), format!("{k}g{k}"), format!("{k}7")] {
+                if !names.contains(&n) {
+                    names.push(n);
+                }
+            }
+        }
+    }
     run.bound("one_step_names", json!(names.len()));
     let mut one_step = 0u64;
     for init in &inits {
